@@ -190,6 +190,9 @@ def run(tier, v):
     vlib.write_ndjson(cpath, cases)
     opath = os.path.join(d, "obs.ndjson")
     t0 = time.time()
+    if not os.path.exists(b):       # scratch dirs live in the shared /tmp: somebody else's cleanup may have taken it
+        vlib._built.clear()
+        b = vlib.harness_build()
     vlib.run_driver(b, ["ammoprov", "-cases", cpath, "-out", opath, "-hang", "5s", "-par", "6"], timeout=2400)
     drv_wall = time.time() - t0
     rows = vlib.read_ndjson(opath)
